@@ -61,7 +61,7 @@ SEMANTIC_RULES = {
     "C04": {"R1", "R2", "R3", "R4", "R9", "R10", "R11"},
     "C05": {"R1", "R2", "R3", "R6", "R8", "R9", "R10"},
     "C06": {"R1", "R2", "R3", "R4", "R5", "R6v", "R8", "R8v", "R9v"},
-    "C07": {"R1s", "R1v", "R2", "R4", "R5v"},
+    "C07": {"R1p", "R1s", "R1v", "R2", "R4", "R5v"},
     "C08": {"G2", "G6r", "G6v", "G8", "G8v", "G9"},
     "C09": {"R4", "R5"},
     "C10": {"ENTRY", "PRIMv", "CLONEv", "STATE", "BACKEND", "FTYPE", "OWN", "IMM", "UPD"},
